@@ -295,8 +295,10 @@ def write_replay(prop_id: str, bucket: str, v: dict) -> str:
     os.makedirs(d, exist_ok=True)
     h = hashlib.sha256(bucket.encode()).hexdigest()[:10]
     path = os.path.join(d, f"{prop_id}-{h}.json")
-    with open(path, "w") as f:
+    tmp = f"{path}.{os.getpid()}.tmp"
+    with open(tmp, "w") as f:
         json.dump({"property": prop_id, "bucket": bucket, "detail": v["detail"], "case": v["case"]}, f, indent=1)
+    os.replace(tmp, path)      # atomic: the same check may run concurrently (quick and thorough, or several seeds)
     return os.path.relpath(path, ROOT)
 
 
@@ -450,9 +452,11 @@ def main(argv=None) -> int:
     }
     if not a.no_evidence:
         os.makedirs(os.path.join(ROOT, "evidence"), exist_ok=True)
-        with open(os.path.join(ROOT, "evidence", f"{prop_id}.json"), "w") as f:
+        ev_path = os.path.join(ROOT, "evidence", f"{prop_id}.json")
+        with open(f"{ev_path}.{os.getpid()}.tmp", "w") as f:
             json.dump(evidence, f, indent=1, sort_keys=False)
             f.write("\n")
+        os.replace(f"{ev_path}.{os.getpid()}.tmp", ev_path)
 
     for idx, cnt in sorted(known_hits.items()):
         print(f"KNOWN-FINDING: property={prop_id} {known[idx].get('what', known[idx].get('bucket'))} (seen {cnt}x this run)")
